@@ -6,7 +6,7 @@ git diff --quiet || { echo "/repo has uncommitted changes"; exit 2; }
 git apply "$P" 2>/dev/null || git apply --3way "$P" || { echo "patch does not apply"; git reset -q --hard HEAD; exit 2; }
 git reset -q
 for id in "$@"; do
-  out=$(cd /verif && bin/check $id 2>&1); rc=$?
+  out=$(cd /verif && VERIF_NO_EVIDENCE=1 bin/check $id 2>&1); rc=$?
   echo "--- $id exit=$rc"; echo "$out" | grep -E "^(VIOLATION:|ANCHOR-LOST:|KNOWN)|^    key=|^    [a-zA-Z]" | head -${LINES_MAX:-12}
 done
 git -C /repo checkout -- . ; git -C /repo clean -fdq -e target
